@@ -156,6 +156,20 @@ def run(chk):
             text = r["text"]      # available for ok and unreadable alike
             events.append({"lang": lang, "stream": symbols(lang, text)})
             meta.append((lang, style, pos, d, text))
+    # MC_C15!Named: the documentation of a TYPE begins with the type's own Rust name, and a naming option of the run re-spells that name
+    # (Go uppercase_acronyms: AccountId -> AccountID): whatever a backend does to the name inside the text, the text stays one comment
+    ncases = [(d, style) for d in docs for style in ("block", "attr") if d.get("companies") and usable(d["doc"], style)]
+    nsrcs = []
+    for d, style in ncases:
+        text = lambda name: attr(d["doc"], style).replace(doc_text(d["doc"]), name + " " + doc_text(d["doc"]), 1)
+        nsrcs.append(f"{text('AccountId')}#[typeshare]\npub struct AccountId {{\n    pub f: u32,\n}}\n{text('UserId')}#[typeshare]\npub struct UserId(String);\n"
+                     f"{text('KindId')}#[typeshare]\npub enum KindId {{\n    One,\n    Two,\n}}\n")
+    for (d, style), per, src in zip(ncases, observe.generate(nsrcs, langs=["go"], cfgs={"go": {"uppercase_acronyms": ["ID"]}}) if ncases else [], nsrcs):
+        r = per["go"]
+        if r["status"] in ("panic", "abort", "hang") or r["status"] == "error":
+            continue
+        events.append({"lang": "go", "stream": symbols("go", r["text"])})
+        meta.append(("go", style + "+named-after-the-type", "type", d, r["text"]))
     nbad = 0
     rejected = set()
     import concurrent.futures as cf
